@@ -352,18 +352,27 @@ def _canon_same_instant_polls(lhs, obs):
 
 
 def oracle_c20(lhs, obs, group=None):
-    """the three executions of one history (unshifted, shifted, threaded/decoys/interleaved) must give the
-    same normalised observation; `group` = observations of the lines that share this history"""
-    if group:
-        # with two transactions outstanding at once the serving order (hash-map order, different in
-        # every agent instance) can legitimately change later instants: no verdict without the model
-        for g in group:
-            for _, snap in _ag_split(g):
-                if snap.get("o", "").count("1") > 1:
-                    return None
-        canon = {_canon_same_instant_polls(lhs, g) for g in group}
-        if len(canon) > 1:
-            return "executions of the same history differ: " + " / ".join(sorted(g[:120] for g in canon))
+    """the executions of one history (unshifted, shifted, threaded/decoys/interleaved, past base) must give
+    the same normalised observation; `group` = observations of the lines that share this history.
+    The executions are compared call by call up to their first divergence.  A divergence is legitimate only
+    if it is a poll at which every execution served SOME transaction, just not the same one (several were
+    ready and the hash-map order differs per agent instance); from there on no verdict is possible without
+    the model.  Any other first divergence (a different wake-up, a reply of a different kind, a different
+    snapshot) contradicts the property."""
+    if not group or len(group) < 2:
+        return None
+    runs = [g.split(";") for g in group]
+    ops = kv_of(lhs).get("ops", "").split(";")
+    for i in range(min(len(r) for r in runs)):
+        cells = {r[i] for r in runs}
+        if len(cells) == 1:
+            continue
+        heads = [c.split("|")[0].split(" ")[0] for c in cells]
+        served = all(h.startswith(("tx:", "timedout:", "cancelled:")) for h in heads)
+        if i < len(ops) and ops[i].startswith("P/") and served and len({h.split(":")[1] for h in heads}) > 1:
+            return None
+        return f"executions of the same history diverge at call {i} ({ops[i][:40] if i < len(ops) else '?'}): " + \
+            " / ".join(sorted(c[:100] for c in cells))
     return None
 
 
